@@ -33,6 +33,7 @@ type fixturesInput struct {
 	Legacy    map[string][]string `json:"legacy"`
 	Committed map[string][]string `json:"committed"`
 	Classes   *classTable         `json:"classes"`
+	Malformed bool                `json:"malformed"` // also move fields into classes no valid block has
 }
 
 type fixture struct {
@@ -226,7 +227,7 @@ func TestBlockVerifyFixtures(t *testing.T) {
 			_, err = bc.SanityCheckNewHeight(o.B, o.U, o.C)
 			return err
 		}
-		input := vh.J{"repo": in.Repo, "legacy": in.Legacy, "committed": in.Committed, "classes": in.Classes}
+		input := vh.J{"repo": in.Repo, "legacy": in.Legacy, "committed": in.Committed, "classes": in.Classes, "malformed": in.Malformed}
 		// self-test of the REFERENCE (refimpl) against the network's own hashes - machinery, never a verdict:
 		// every transaction hash of the formats whose transaction hashes are recomputable, every block hash from 0.13.2 on
 		if modern || class == "0.11-0.13.1" {
@@ -305,6 +306,9 @@ func TestBlockVerifyFixtures(t *testing.T) {
 				for _, to := range in.Classes.ClassOf[cf] {
 					if to == from || (contains(in.Classes.ProtoSame[class], cf) && to != "nonzero" && from != "nonzero") {
 						continue
+					}
+					if !in.Malformed && !contains(in.Classes.ValidOf[cf], to) {
+						continue // (finding block-verify:crash:invalid-class*: offered with VERIF_C02_MALFORMED=1)
 					}
 					o := f.o.clone()
 					a2, _ := carriers(cf, o.B.Transactions, o.B.Receipts, o.B.Header)
